@@ -7,8 +7,8 @@ import FGVerif.Proofs.C06Total
 #print axioms C06.env_independent
 #print axioms C06.view_env_independent
 #print axioms C06.env_independent_ofKey
-#print axioms C06.deterministic
-#print axioms C06.input_untouched
+#print axioms C06.deterministic     -- corollary of history_independent + env_independent; "same arguments, same answer" is typing
+#print axioms C06.input_untouched   -- `rfl`: true by construction of the model, NOT evidence about the code (purity is checked at run time)
 #print axioms C06.hash_dependent_witness_unrepaired
 #print axioms C06.env_independent_strings
 #print axioms C06.env_independent_fg
